@@ -71,6 +71,19 @@ using SymEngine::vec_boolean;
 
 #include "symengine/parser/tokenizer.h"
 
+// Operands of the logical operators must be Booleans: the semantic values
+// are RCP<const Basic>, so check before the downcast
+static SymEngine::RCP<const SymEngine::Boolean>
+to_boolean(const SymEngine::RCP<const SymEngine::Basic> &b)
+{
+    if (!SymEngine::is_a_Boolean(*b)) {
+        throw SymEngine::ParseError(
+            "Operand of a logical operator is not of Boolean type: "
+            + b->__str__());
+    }
+    return SymEngine::rcp_static_cast<const SymEngine::Boolean>(b);
+}
+
 namespace yy
 {
 
@@ -87,7 +100,7 @@ void parser::error(const std::string &msg)
 }
 
 
-#line 91 "parser.tab.cc"
+#line 103 "parser.tab.cc"
 
 
 #ifndef YY_
@@ -160,7 +173,7 @@ void parser::error(const std::string &msg)
 #define YYRECOVERING()  (!!yyerrstatus_)
 
 namespace yy {
-#line 164 "parser.tab.cc"
+#line 176 "parser.tab.cc"
 
   /// Build a parser object.
   parser::parser (SymEngine::Parser &p_yyarg)
@@ -822,40 +835,40 @@ namespace yy {
           switch (yyn)
             {
   case 2: // st_expr: expr
-#line 104 "parser.yy"
+#line 116 "parser.yy"
     {
         yylhs.value.as < SymEngine::RCP<const SymEngine::Basic> > () = yystack_[0].value.as < SymEngine::RCP<const SymEngine::Basic> > ();
         p.res = yylhs.value.as < SymEngine::RCP<const SymEngine::Basic> > ();
     }
-#line 831 "parser.tab.cc"
-    break;
-
-  case 3: // expr: expr '+' expr
-#line 112 "parser.yy"
-        { yylhs.value.as < SymEngine::RCP<const SymEngine::Basic> > () = add(yystack_[2].value.as < SymEngine::RCP<const SymEngine::Basic> > (), yystack_[0].value.as < SymEngine::RCP<const SymEngine::Basic> > ()); }
-#line 837 "parser.tab.cc"
-    break;
-
-  case 4: // expr: expr '-' expr
-#line 115 "parser.yy"
-        { yylhs.value.as < SymEngine::RCP<const SymEngine::Basic> > () = sub(yystack_[2].value.as < SymEngine::RCP<const SymEngine::Basic> > (), yystack_[0].value.as < SymEngine::RCP<const SymEngine::Basic> > ()); }
 #line 843 "parser.tab.cc"
     break;
 
-  case 5: // expr: expr '*' expr
-#line 118 "parser.yy"
-        { yylhs.value.as < SymEngine::RCP<const SymEngine::Basic> > () = mul(yystack_[2].value.as < SymEngine::RCP<const SymEngine::Basic> > (), yystack_[0].value.as < SymEngine::RCP<const SymEngine::Basic> > ()); }
+  case 3: // expr: expr '+' expr
+#line 124 "parser.yy"
+        { yylhs.value.as < SymEngine::RCP<const SymEngine::Basic> > () = add(yystack_[2].value.as < SymEngine::RCP<const SymEngine::Basic> > (), yystack_[0].value.as < SymEngine::RCP<const SymEngine::Basic> > ()); }
 #line 849 "parser.tab.cc"
     break;
 
-  case 6: // expr: expr '/' expr
-#line 121 "parser.yy"
-        { yylhs.value.as < SymEngine::RCP<const SymEngine::Basic> > () = div(yystack_[2].value.as < SymEngine::RCP<const SymEngine::Basic> > (), yystack_[0].value.as < SymEngine::RCP<const SymEngine::Basic> > ()); }
+  case 4: // expr: expr '-' expr
+#line 127 "parser.yy"
+        { yylhs.value.as < SymEngine::RCP<const SymEngine::Basic> > () = sub(yystack_[2].value.as < SymEngine::RCP<const SymEngine::Basic> > (), yystack_[0].value.as < SymEngine::RCP<const SymEngine::Basic> > ()); }
 #line 855 "parser.tab.cc"
     break;
 
+  case 5: // expr: expr '*' expr
+#line 130 "parser.yy"
+        { yylhs.value.as < SymEngine::RCP<const SymEngine::Basic> > () = mul(yystack_[2].value.as < SymEngine::RCP<const SymEngine::Basic> > (), yystack_[0].value.as < SymEngine::RCP<const SymEngine::Basic> > ()); }
+#line 861 "parser.tab.cc"
+    break;
+
+  case 6: // expr: expr '/' expr
+#line 133 "parser.yy"
+        { yylhs.value.as < SymEngine::RCP<const SymEngine::Basic> > () = div(yystack_[2].value.as < SymEngine::RCP<const SymEngine::Basic> > (), yystack_[0].value.as < SymEngine::RCP<const SymEngine::Basic> > ()); }
+#line 867 "parser.tab.cc"
+    break;
+
   case 7: // expr: IMPLICIT_MUL POW expr
-#line 126 "parser.yy"
+#line 138 "parser.yy"
         {
           auto tup = p.parse_implicit_mul(yystack_[2].value.as < std::string > ());
           if (neq(*std::get<1>(tup), *one)) {
@@ -864,165 +877,165 @@ namespace yy {
             yylhs.value.as < SymEngine::RCP<const SymEngine::Basic> > () = pow(std::get<0>(tup), yystack_[0].value.as < SymEngine::RCP<const SymEngine::Basic> > ());
           }
         }
-#line 868 "parser.tab.cc"
-    break;
-
-  case 8: // expr: expr POW expr
-#line 136 "parser.yy"
-        { yylhs.value.as < SymEngine::RCP<const SymEngine::Basic> > () = pow(yystack_[2].value.as < SymEngine::RCP<const SymEngine::Basic> > (), yystack_[0].value.as < SymEngine::RCP<const SymEngine::Basic> > ()); }
-#line 874 "parser.tab.cc"
-    break;
-
-  case 9: // expr: expr '<' expr
-#line 139 "parser.yy"
-        { yylhs.value.as < SymEngine::RCP<const SymEngine::Basic> > () = rcp_static_cast<const Basic>(Lt(yystack_[2].value.as < SymEngine::RCP<const SymEngine::Basic> > (), yystack_[0].value.as < SymEngine::RCP<const SymEngine::Basic> > ())); }
 #line 880 "parser.tab.cc"
     break;
 
-  case 10: // expr: expr '>' expr
-#line 142 "parser.yy"
-        { yylhs.value.as < SymEngine::RCP<const SymEngine::Basic> > () = rcp_static_cast<const Basic>(Gt(yystack_[2].value.as < SymEngine::RCP<const SymEngine::Basic> > (), yystack_[0].value.as < SymEngine::RCP<const SymEngine::Basic> > ())); }
+  case 8: // expr: expr POW expr
+#line 148 "parser.yy"
+        { yylhs.value.as < SymEngine::RCP<const SymEngine::Basic> > () = pow(yystack_[2].value.as < SymEngine::RCP<const SymEngine::Basic> > (), yystack_[0].value.as < SymEngine::RCP<const SymEngine::Basic> > ()); }
 #line 886 "parser.tab.cc"
     break;
 
-  case 11: // expr: expr NE expr
-#line 145 "parser.yy"
-        { yylhs.value.as < SymEngine::RCP<const SymEngine::Basic> > () = rcp_static_cast<const Basic>(Ne(yystack_[2].value.as < SymEngine::RCP<const SymEngine::Basic> > (), yystack_[0].value.as < SymEngine::RCP<const SymEngine::Basic> > ())); }
+  case 9: // expr: expr '<' expr
+#line 151 "parser.yy"
+        { yylhs.value.as < SymEngine::RCP<const SymEngine::Basic> > () = rcp_static_cast<const Basic>(Lt(yystack_[2].value.as < SymEngine::RCP<const SymEngine::Basic> > (), yystack_[0].value.as < SymEngine::RCP<const SymEngine::Basic> > ())); }
 #line 892 "parser.tab.cc"
     break;
 
-  case 12: // expr: expr LE expr
-#line 148 "parser.yy"
-        { yylhs.value.as < SymEngine::RCP<const SymEngine::Basic> > () = rcp_static_cast<const Basic>(Le(yystack_[2].value.as < SymEngine::RCP<const SymEngine::Basic> > (), yystack_[0].value.as < SymEngine::RCP<const SymEngine::Basic> > ())); }
+  case 10: // expr: expr '>' expr
+#line 154 "parser.yy"
+        { yylhs.value.as < SymEngine::RCP<const SymEngine::Basic> > () = rcp_static_cast<const Basic>(Gt(yystack_[2].value.as < SymEngine::RCP<const SymEngine::Basic> > (), yystack_[0].value.as < SymEngine::RCP<const SymEngine::Basic> > ())); }
 #line 898 "parser.tab.cc"
     break;
 
-  case 13: // expr: expr GE expr
-#line 151 "parser.yy"
-        { yylhs.value.as < SymEngine::RCP<const SymEngine::Basic> > () = rcp_static_cast<const Basic>(Ge(yystack_[2].value.as < SymEngine::RCP<const SymEngine::Basic> > (), yystack_[0].value.as < SymEngine::RCP<const SymEngine::Basic> > ())); }
+  case 11: // expr: expr NE expr
+#line 157 "parser.yy"
+        { yylhs.value.as < SymEngine::RCP<const SymEngine::Basic> > () = rcp_static_cast<const Basic>(Ne(yystack_[2].value.as < SymEngine::RCP<const SymEngine::Basic> > (), yystack_[0].value.as < SymEngine::RCP<const SymEngine::Basic> > ())); }
 #line 904 "parser.tab.cc"
     break;
 
-  case 14: // expr: expr EQ expr
-#line 154 "parser.yy"
-        { yylhs.value.as < SymEngine::RCP<const SymEngine::Basic> > () = rcp_static_cast<const Basic>(Eq(yystack_[2].value.as < SymEngine::RCP<const SymEngine::Basic> > (), yystack_[0].value.as < SymEngine::RCP<const SymEngine::Basic> > ())); }
+  case 12: // expr: expr LE expr
+#line 160 "parser.yy"
+        { yylhs.value.as < SymEngine::RCP<const SymEngine::Basic> > () = rcp_static_cast<const Basic>(Le(yystack_[2].value.as < SymEngine::RCP<const SymEngine::Basic> > (), yystack_[0].value.as < SymEngine::RCP<const SymEngine::Basic> > ())); }
 #line 910 "parser.tab.cc"
     break;
 
+  case 13: // expr: expr GE expr
+#line 163 "parser.yy"
+        { yylhs.value.as < SymEngine::RCP<const SymEngine::Basic> > () = rcp_static_cast<const Basic>(Ge(yystack_[2].value.as < SymEngine::RCP<const SymEngine::Basic> > (), yystack_[0].value.as < SymEngine::RCP<const SymEngine::Basic> > ())); }
+#line 916 "parser.tab.cc"
+    break;
+
+  case 14: // expr: expr EQ expr
+#line 166 "parser.yy"
+        { yylhs.value.as < SymEngine::RCP<const SymEngine::Basic> > () = rcp_static_cast<const Basic>(Eq(yystack_[2].value.as < SymEngine::RCP<const SymEngine::Basic> > (), yystack_[0].value.as < SymEngine::RCP<const SymEngine::Basic> > ())); }
+#line 922 "parser.tab.cc"
+    break;
+
   case 15: // expr: expr '|' expr
-#line 157 "parser.yy"
+#line 169 "parser.yy"
         {
             set_boolean s;
-            s.insert(rcp_static_cast<const Boolean>(yystack_[2].value.as < SymEngine::RCP<const SymEngine::Basic> > ()));
-            s.insert(rcp_static_cast<const Boolean>(yystack_[0].value.as < SymEngine::RCP<const SymEngine::Basic> > ()));
+            s.insert(to_boolean(yystack_[2].value.as < SymEngine::RCP<const SymEngine::Basic> > ()));
+            s.insert(to_boolean(yystack_[0].value.as < SymEngine::RCP<const SymEngine::Basic> > ()));
             yylhs.value.as < SymEngine::RCP<const SymEngine::Basic> > () = rcp_static_cast<const Basic>(logical_or(s));
         }
-#line 921 "parser.tab.cc"
+#line 933 "parser.tab.cc"
     break;
 
   case 16: // expr: expr '&' expr
-#line 165 "parser.yy"
+#line 177 "parser.yy"
         {
             set_boolean s;
-            s.insert(rcp_static_cast<const Boolean>(yystack_[2].value.as < SymEngine::RCP<const SymEngine::Basic> > ()));
-            s.insert(rcp_static_cast<const Boolean>(yystack_[0].value.as < SymEngine::RCP<const SymEngine::Basic> > ()));
+            s.insert(to_boolean(yystack_[2].value.as < SymEngine::RCP<const SymEngine::Basic> > ()));
+            s.insert(to_boolean(yystack_[0].value.as < SymEngine::RCP<const SymEngine::Basic> > ()));
             yylhs.value.as < SymEngine::RCP<const SymEngine::Basic> > () = rcp_static_cast<const Basic>(logical_and(s));
         }
-#line 932 "parser.tab.cc"
+#line 944 "parser.tab.cc"
     break;
 
   case 17: // expr: expr '^' expr
-#line 173 "parser.yy"
+#line 185 "parser.yy"
         {
             vec_boolean s;
-            s.push_back(rcp_static_cast<const Boolean>(yystack_[2].value.as < SymEngine::RCP<const SymEngine::Basic> > ()));
-            s.push_back(rcp_static_cast<const Boolean>(yystack_[0].value.as < SymEngine::RCP<const SymEngine::Basic> > ()));
+            s.push_back(to_boolean(yystack_[2].value.as < SymEngine::RCP<const SymEngine::Basic> > ()));
+            s.push_back(to_boolean(yystack_[0].value.as < SymEngine::RCP<const SymEngine::Basic> > ()));
             yylhs.value.as < SymEngine::RCP<const SymEngine::Basic> > () = rcp_static_cast<const Basic>(logical_xor(s));
         }
-#line 943 "parser.tab.cc"
-    break;
-
-  case 18: // expr: '(' expr ')'
-#line 181 "parser.yy"
-        { yylhs.value.as < SymEngine::RCP<const SymEngine::Basic> > () = yystack_[1].value.as < SymEngine::RCP<const SymEngine::Basic> > (); }
-#line 949 "parser.tab.cc"
-    break;
-
-  case 19: // expr: '-' expr
-#line 184 "parser.yy"
-        { yylhs.value.as < SymEngine::RCP<const SymEngine::Basic> > () = neg(yystack_[0].value.as < SymEngine::RCP<const SymEngine::Basic> > ()); }
 #line 955 "parser.tab.cc"
     break;
 
-  case 20: // expr: '+' expr
-#line 187 "parser.yy"
-        { yylhs.value.as < SymEngine::RCP<const SymEngine::Basic> > () = yystack_[0].value.as < SymEngine::RCP<const SymEngine::Basic> > (); }
+  case 18: // expr: '(' expr ')'
+#line 193 "parser.yy"
+        { yylhs.value.as < SymEngine::RCP<const SymEngine::Basic> > () = yystack_[1].value.as < SymEngine::RCP<const SymEngine::Basic> > (); }
 #line 961 "parser.tab.cc"
     break;
 
-  case 21: // expr: '~' expr
-#line 190 "parser.yy"
-        { yylhs.value.as < SymEngine::RCP<const SymEngine::Basic> > () = rcp_static_cast<const Basic>(logical_not(rcp_static_cast<const Boolean>(yystack_[0].value.as < SymEngine::RCP<const SymEngine::Basic> > ()))); }
+  case 19: // expr: '-' expr
+#line 196 "parser.yy"
+        { yylhs.value.as < SymEngine::RCP<const SymEngine::Basic> > () = neg(yystack_[0].value.as < SymEngine::RCP<const SymEngine::Basic> > ()); }
 #line 967 "parser.tab.cc"
     break;
 
-  case 22: // expr: leaf
-#line 193 "parser.yy"
-        { yylhs.value.as < SymEngine::RCP<const SymEngine::Basic> > () = rcp_static_cast<const Basic>(yystack_[0].value.as < SymEngine::RCP<const SymEngine::Basic> > ()); }
+  case 20: // expr: '+' expr
+#line 199 "parser.yy"
+        { yylhs.value.as < SymEngine::RCP<const SymEngine::Basic> > () = yystack_[0].value.as < SymEngine::RCP<const SymEngine::Basic> > (); }
 #line 973 "parser.tab.cc"
     break;
 
+  case 21: // expr: '~' expr
+#line 202 "parser.yy"
+        { yylhs.value.as < SymEngine::RCP<const SymEngine::Basic> > () = rcp_static_cast<const Basic>(logical_not(to_boolean(yystack_[0].value.as < SymEngine::RCP<const SymEngine::Basic> > ()))); }
+#line 979 "parser.tab.cc"
+    break;
+
+  case 22: // expr: leaf
+#line 205 "parser.yy"
+        { yylhs.value.as < SymEngine::RCP<const SymEngine::Basic> > () = rcp_static_cast<const Basic>(yystack_[0].value.as < SymEngine::RCP<const SymEngine::Basic> > ()); }
+#line 985 "parser.tab.cc"
+    break;
+
   case 23: // leaf: IDENTIFIER
-#line 198 "parser.yy"
+#line 210 "parser.yy"
     {
         yylhs.value.as < SymEngine::RCP<const SymEngine::Basic> > () = p.parse_identifier(yystack_[0].value.as < std::string > ());
     }
-#line 981 "parser.tab.cc"
+#line 993 "parser.tab.cc"
     break;
 
   case 24: // leaf: IMPLICIT_MUL
-#line 203 "parser.yy"
+#line 215 "parser.yy"
     {
         auto tup = p.parse_implicit_mul(yystack_[0].value.as < std::string > ());
         yylhs.value.as < SymEngine::RCP<const SymEngine::Basic> > () = mul(std::get<0>(tup), std::get<1>(tup));
     }
-#line 990 "parser.tab.cc"
+#line 1002 "parser.tab.cc"
     break;
 
   case 25: // leaf: NUMERIC
-#line 209 "parser.yy"
+#line 221 "parser.yy"
     {
         yylhs.value.as < SymEngine::RCP<const SymEngine::Basic> > () = p.parse_numeric(yystack_[0].value.as < std::string > ());
     }
-#line 998 "parser.tab.cc"
+#line 1010 "parser.tab.cc"
     break;
 
   case 26: // leaf: func
-#line 214 "parser.yy"
+#line 226 "parser.yy"
     {
         yylhs.value.as < SymEngine::RCP<const SymEngine::Basic> > () = yystack_[0].value.as < SymEngine::RCP<const SymEngine::Basic> > ();
     }
-#line 1006 "parser.tab.cc"
+#line 1018 "parser.tab.cc"
     break;
 
   case 27: // leaf: pwise
-#line 219 "parser.yy"
+#line 231 "parser.yy"
     {
         yylhs.value.as < SymEngine::RCP<const SymEngine::Basic> > () = yystack_[0].value.as < SymEngine::RCP<const SymEngine::Basic> > ();
     }
-#line 1014 "parser.tab.cc"
+#line 1026 "parser.tab.cc"
     break;
 
   case 28: // func: IDENTIFIER '(' expr_list ')'
-#line 226 "parser.yy"
+#line 238 "parser.yy"
     {
         yylhs.value.as < SymEngine::RCP<const SymEngine::Basic> > () = p.functionify(yystack_[3].value.as < std::string > (), yystack_[1].value.as < SymEngine::vec_basic > ());
     }
-#line 1022 "parser.tab.cc"
+#line 1034 "parser.tab.cc"
     break;
 
   case 29: // epair: '(' expr ',' expr ')'
-#line 234 "parser.yy"
+#line 246 "parser.yy"
     {
         auto logical_expr = yystack_[1].value.as < SymEngine::RCP<const SymEngine::Basic> > ();
         if (!SymEngine::is_a_Boolean(*logical_expr)) {
@@ -1031,54 +1044,54 @@ namespace yy {
         }
         yylhs.value.as < std::pair<SymEngine::RCP<const SymEngine::Basic>, SymEngine::RCP<const SymEngine::Boolean>> > () = std::make_pair(yystack_[3].value.as < SymEngine::RCP<const SymEngine::Basic> > (), rcp_static_cast<const Boolean>(logical_expr));
     }
-#line 1035 "parser.tab.cc"
+#line 1047 "parser.tab.cc"
     break;
 
   case 30: // piecewise_list: piecewise_list ',' epair
-#line 246 "parser.yy"
+#line 258 "parser.yy"
     {
        yylhs.value.as < SymEngine::PiecewiseVec > () = yystack_[2].value.as < SymEngine::PiecewiseVec > ();
        yylhs.value.as < SymEngine::PiecewiseVec > () .push_back(yystack_[0].value.as < std::pair<SymEngine::RCP<const SymEngine::Basic>, SymEngine::RCP<const SymEngine::Boolean>> > ());
     }
-#line 1044 "parser.tab.cc"
+#line 1056 "parser.tab.cc"
     break;
 
   case 31: // piecewise_list: epair
-#line 252 "parser.yy"
+#line 264 "parser.yy"
     {
        yylhs.value.as < SymEngine::PiecewiseVec > () = SymEngine::PiecewiseVec(1, yystack_[0].value.as < std::pair<SymEngine::RCP<const SymEngine::Basic>, SymEngine::RCP<const SymEngine::Boolean>> > ());
     }
-#line 1052 "parser.tab.cc"
+#line 1064 "parser.tab.cc"
     break;
 
   case 32: // pwise: PIECEWISE '(' piecewise_list ')'
-#line 259 "parser.yy"
+#line 271 "parser.yy"
     {
         assert(yystack_[3].value.as < std::string > () == "Piecewise");
         yylhs.value.as < SymEngine::RCP<const SymEngine::Basic> > () = piecewise(std::move(yystack_[1].value.as < SymEngine::PiecewiseVec > ()));
     }
-#line 1061 "parser.tab.cc"
+#line 1073 "parser.tab.cc"
     break;
 
   case 33: // expr_list: expr_list ',' expr
-#line 268 "parser.yy"
+#line 280 "parser.yy"
     {
         yylhs.value.as < SymEngine::vec_basic > () = yystack_[2].value.as < SymEngine::vec_basic > (); // TODO : should make copy?
         yylhs.value.as < SymEngine::vec_basic > () .push_back(yystack_[0].value.as < SymEngine::RCP<const SymEngine::Basic> > ());
     }
-#line 1070 "parser.tab.cc"
+#line 1082 "parser.tab.cc"
     break;
 
   case 34: // expr_list: expr
-#line 274 "parser.yy"
+#line 286 "parser.yy"
     {
         yylhs.value.as < SymEngine::vec_basic > () = vec_basic(1, yystack_[0].value.as < SymEngine::RCP<const SymEngine::Basic> > ());
     }
-#line 1078 "parser.tab.cc"
+#line 1090 "parser.tab.cc"
     break;
 
 
-#line 1082 "parser.tab.cc"
+#line 1094 "parser.tab.cc"
 
             default:
               break;
@@ -1409,10 +1422,10 @@ namespace yy {
   const short
   parser::yyrline_[] =
   {
-       0,   103,   103,   111,   114,   117,   120,   125,   135,   138,
-     141,   144,   147,   150,   153,   156,   164,   172,   180,   183,
-     186,   189,   192,   197,   202,   208,   213,   218,   225,   233,
-     245,   251,   258,   267,   273
+       0,   115,   115,   123,   126,   129,   132,   137,   147,   150,
+     153,   156,   159,   162,   165,   168,   176,   184,   192,   195,
+     198,   201,   204,   209,   214,   220,   225,   230,   237,   245,
+     257,   263,   270,   279,   285
   };
 
   void
@@ -1491,5 +1504,5 @@ namespace yy {
   }
 
 } // yy
-#line 1495 "parser.tab.cc"
+#line 1507 "parser.tab.cc"
 
